@@ -1,0 +1,17 @@
+//go:build verif
+
+// Contracts for the js/wasm screen (wscreen.go), read by the /verif checker when the
+// package is loaded with GOOS=js GOARCH=wasm.  Comment-only: this file contains no code.
+
+package tcell
+
+// ---- C19: lifecycle methods never wedge (lock balance) -------------------------------------
+// Every entry point (Screen interface method, JavaScript callback) is entered without the
+// screen mutex and returns without it on every path; Lock is never reached with the mutex
+// held; Unlock only with it held.  Any order of Suspend/Resume/SetSize/Fini then cannot
+// self-deadlock.  Field-access obligations are not part of C19 (balanceonly).
+
+//@ lockclass wScreen
+//@   balanceonly
+//@   initfuncs Init NewTerminfoScreen
+//@   entry onKeyEvent onMouseEvent onPaste onFocus unset
